@@ -135,6 +135,7 @@ class C19(engine.Property):
         "falsy-universe-released",
         "ill-typed-assignment-on-bound-pair",
         "laws-constructed-positionally",
+        "construction-fed-by-failing-iterable",
     ]
 
     def make_config(self, rng):
@@ -160,6 +161,7 @@ class C19(engine.Property):
             "max_l": 6,
             "p_none": rng.choice([0.1, 0.2, 0.35]),
             "p_whitelist": rng.choice([0.0, 0.3, 0.6]),
+            "nv": rng.choice([0, 0, 1, 2]),
             # FalsyUniverse: a container-like subclass, falsy while it has no members
             "universe_classes": rng.choice(
                 [
@@ -221,6 +223,8 @@ class C19(engine.Property):
                 )
             for _ in range(cfg["nl"]):
                 st.pending.append(self._mk_laws(rng, cfg, st))
+            for _ in range(cfg.get("nv", 0)):
+                st.pending.append({"op": "mk_vertex", "new": st.namer.new("v"), "cls": "Vertex", "tag": 0})
         if st.pending:
             return st.pending.pop(0)
         us = st.view.universes()
@@ -238,12 +242,20 @@ class C19(engine.Property):
             if kind == "mk_universe" and len(us) < cfg["max_u"]:
                 return {"op": "mk_universe", "new": st.namer.new("u"), "cls": rng.choice(cfg["universe_classes"])}
             if kind == "mk_universe_laws" and len(us) < cfg["max_u"] and ls:
-                return {
+                op = {
                     "op": "mk_universe",
                     "new": st.namer.new("u"),
                     "cls": rng.choice(cfg["universe_classes"]),
                     "laws": rng.choice(ls),
                 }
+                vs = st.view.plain_vertices()
+                if vs and rng.random() < 0.5:
+                    op["vertices"] = [rng.choice(vs) for _ in range(rng.randint(1, 2))]
+                    if rng.random() < 0.5:
+                        # the vertices iterable fails part-way: the construction
+                        # raises, the half-built universe stays reachable
+                        op["as"] = f"gen_raises:{rng.randint(1, len(op['vertices']))}"
+                return op
             if kind == "mk_laws" and len(ls) < cfg["max_l"]:
                 return self._mk_laws(rng, cfg, st)
             if kind == "bad_assign" and ls and us:
@@ -336,7 +348,12 @@ class C19(engine.Property):
 
         k = op["op"]
         bad = isinstance(op.get("L"), dict) or isinstance(op.get("u"), dict)
-        if bad:
+        if str(op.get("as", "")).startswith("gen_raises"):
+            s = st.stats
+            s["probe:construction-fed-by-failing-iterable"] += 1
+            s["fault:argument-iterable-raises"] += 1
+            k = "failing-construction"
+        elif bad:
             # an ill-typed value: whether and how the call fails is not the
             # property's business; the bijection over everything known is
             k = "bad-assignment"
